@@ -8,6 +8,8 @@ FHAll == { <<"f64", "blake3_256">>, <<"f64", "blake3_192">>, <<"f64", "sha3_256"
 \* extension the out-of-domain point collides with the LDE domain with probability ~ |domain| / P,
 \* which makes honest proofs fail legitimately (DESIGN 4-F).
 
+FHDet == { <<"f64", "blake3_256">>, <<"f64", "rp64_256">>, <<"f128", "blake3_256">>, <<"f62", "rp62_248">> }
+
 A0 == <<Single(0, 0)>>
 \* Boundary configurations (DESIGN 7/C01): extremes of every option
 B(width, shapes) == [Empty EXCEPT !.width = width, !.shapes = shapes, !.init = [j \in 1..width |-> j + 1],
